@@ -472,6 +472,40 @@ def rule_notice_per_line(ck: Check, repo: Repo) -> None:
         r.violation(q, "parse error swallowed", "an unparseable expression must propagate", repo.loc(fn))
 
 
+# ------------------------------------------------------------------ R9
+def rule_syntax_blind(ck: Check, repo: Repo, folder: Folder, styles: list[dict], rid: str = "R9") -> None:
+    """'The surrounding decoration never removes part of the value.'  The end pattern is one constant built from the
+    terminators of ALL comment syntaxes and the reader gets only text - it cannot know which syntax a line is written in.
+    So every terminator of the table is cut from the end of a value in every file, also where it is not decoration
+    (`# SPDX-FileCopyrightText: 2020 ACME {Inc}` in a Python file)."""
+    from ..rules import param_names
+    r = ck.rule(rid, "a free-text value keeps its own last characters (the reader strips a terminator only where it is the line's comment syntax)")
+    readers = [f"{EX}.extract_reuse_info", f"{EX}.find_spdx_tag"]
+    aware = []
+    for q in readers:
+        if not repo.has_func(q):
+            continue
+        fn = repo.func(q)
+        ck.analysed_fn(q)
+        src = ast.unparse(fn)
+        if any("style" in p.lower() for p in param_names(fn)) or "CommentStyle" in src or "get_comment_style" in src:
+            aware.append(q)
+    endp = end_pattern(folder)
+    ends = sorted({s["end"] for s in styles if s["end"]})
+    alpha = Alphabet([(endp, 0)], extra="".join(ends) + "ab ", exclude="\n\r")
+    lang = Lang.from_regex(endp, 0, alpha, "full")
+    cut = [e for e in ends if lang.accepts(e) and not e[0].isspace()]
+    r.instance("reader-syntax-input", {"readers": readers, "syntax_aware": aware, "terminators_cut_everywhere": cut}, f"{EX}._END_PATTERN")
+    if aware:
+        ck.assumptions.append(f"C02-{rid}: {aware} receive comment-syntax information; which terminators are cut per syntax is not decided")
+        return
+    if cut:
+        r.violation(f"{EX}._END_PATTERN", "a free-text value that ends in a comment terminator of any syntax loses it",
+                    f"`# SPDX-FileCopyrightText: 2020 ACME {{Inc}}` in a Python file is read as `… ACME {{Inc`; `# SPDX-FileContributor: smile :)`"
+                    f" as `smile`: the end pattern strips {cut[:6]}… in every file because the reader is given text only, not the"
+                    " syntax of the line", repo.loc(repo.module_assign(EX, "_END_PATTERN")))
+
+
 def run(ck: Check, repo: Repo) -> None:
     ck.explanation = (
         "Reader tables against writer tables: every multi-line terminator of the 29 folded comment styles and the"
@@ -479,11 +513,10 @@ def run(ck: Check, repo: Repo) -> None:
         " ^(.*?)TAG:[ \\t]+(.*?)END on the regex syntax tree; no string of the SPDX expression language can end in a"
         " terminator or in a mirrored line prefix (language-intersection emptiness with witnesses); the yielded"
         " value passes only through strip() and the guarded frame slice (path tabulation); the 4 KiB/snippet/seek"
-        " table of reuse_info_of_file; lossy-free decode. Not decided: free-text holders that themselves end in a"
-        " terminator, and capture behaviour of backtracking beyond the shape argument."
+        " table of reuse_info_of_file; lossy-free decode. R9: the reader is not given the comment syntax, so a free-text value ending"
+        " in any terminator loses it (recorded finding). Not decided: capture behaviour of backtracking beyond the shape argument."
     )
-    ck.not_decided = ["exactness for free-text copyright holders ending in a terminator",
-                      "regex backtracking behaviour beyond the syntax-tree shape"]
+    ck.not_decided = ["regex backtracking behaviour beyond the syntax-tree shape"]
     ck.trust("CPython ast", "re._parser", "sa/fold.py", "sa/relang.py", "sa/tab.py")
     folder = Folder(repo)
     styles = style_tables(folder)
@@ -498,6 +531,7 @@ def run(ck: Check, repo: Repo) -> None:
     rule_notice_per_line(ck, repo)
     from . import c07
     c07.rule_tables_roundtrip(ck, repo, folder, "R8")
+    rule_syntax_blind(ck, repo, folder, styles)
     # order hazards met while folding (reported under C14, noted here)
     for h in folder.hazards:
         if "extract" in h.context:
